@@ -170,6 +170,10 @@ func (sc *seqScenario) worker(t *testing.T, j *vlib.Job, r *vlib.Result) {
 			r.Transitions++
 			if class != "" {
 				r.Violate(class, desc, map[string]any{"scenario": sc.name, "seq": child}, strings.Join(child, " "), nil)
+				if j.IsKnown(class) {
+					r.AddExtra("known_finding_states", 1)
+					continue // do not expand a state that exhibits a known finding
+				}
 				return
 			}
 			if !applied {
